@@ -227,7 +227,7 @@ func executeSched(cfg simkit.RunConfig, sc *Scenario, hooked, contained bool) *s
 		synctest.Wait()
 		// digest what the released goroutine (and whatever it woke) did
 		w.mu.Lock()
-		si := &stepInfo{step: step, desc: lastDesc, returned: map[int]int{}}
+		si := &stepInfo{step: step, desc: lastDesc, returned: map[int]int{}, acquiring: strings.Contains(lastDesc, "latch.acquireSlot")}
 		for i := 0; i < n; i++ {
 			if w.called[i] && !w.calledSeen[i] {
 				w.calledSeen[i] = true
